@@ -18,6 +18,9 @@ pub struct SbCfg {
     pub chunk: u8,
     /// extended: clients in the main packet
     pub main_clients: u8,
+    /// several clients may share name and clan
+    #[serde(default)]
+    pub shared_names: bool,
 }
 
 #[derive(Clone, Debug, Serialize, Deserialize, PartialEq)]
@@ -94,9 +97,10 @@ fn model(cfg: &SbCfg) -> Model {
     let mut clients = Vec::new();
     for k in 0..n {
         clients.push(MClient {
-            // unique names so that every client is attributable
-            name: format!("p{}{}", k, word(&mut r, 8)),
-            clan: word(&mut r, 11),
+            // mostly unique names; with `shared_names` several clients share name (and clan), as "(connecting)"
+            // or "nameless tee" clients do on real servers, and differ only in the other fields
+            name: if cfg.shared_names && r.chance(1, 2) { (*r.pick(&["(connecting)", "nameless tee", "a", ""])).to_string() } else { format!("p{}{}", k, word(&mut r, 8)) },
+            clan: if cfg.shared_names && r.chance(2, 3) { String::new() } else { word(&mut r, 11) },
             country: r.range(0, 1000) as i32 - 1,
             score: r.i32_edge(),
             is_player: r.chance(2, 3),
@@ -431,6 +435,7 @@ impl Engine for SbEngine {
             n_clients,
             chunk: if format == 0 { *c.pick(&[24u8, 24, 24, 24, 16, 20, 1, 7, 32, 63, 64, 65]) } else { *c.pick(&[1u8, 2, 5, 16, 24, 40, 64]) },
             main_clients: if c.chance(1, 6) { c.range(0, 64) as u8 } else { c.range(0, 24) as u8 },
+            shared_names: c.chance(1, 4),
         };
         let mode = c.below(8); // 0-2: permutation only; 3-4: + loss; 5-6: + duplicates; 7: corruption
         let n_parts_guess = 70;
@@ -623,6 +628,8 @@ impl Engine for SbEngine {
                         return Some(v("merge-error-on-consistent-parts", &[("error", e)], format!("merging uncorrupted part {} returned {} (parts received so far: {:?})", part.id, e, delivered)));
                     }
                     let want_complete = delivered.iter().all(|&d| d > 0);
+                    // a copy taken before get_info() touches the accumulator (get_info sorts in place)
+                    let untouched = acc.clone();
                     let info = match guard(|| acc.as_mut().unwrap().get_info().cloned()) {
                         Ok(x) => x,
                         Err(pn) => return Some(v("panic", &[("where", "get_info"), ("message", &pn.msg_class()), ("file", &pn.file_class())], format!("get_info panicked: {} at {}:{}", pn.msg, pn.file, pn.line))),
@@ -706,7 +713,7 @@ impl Engine for SbEngine {
                             }
                             // the other way to obtain the complete info (`take_info`, on a copy) must hand out the same value
                             let taken = guard(|| {
-                                let mut c = acc.as_ref().unwrap().clone();
+                                let mut c = untouched.clone().unwrap();
                                 c.take_info()
                             });
                             match taken {
@@ -755,7 +762,7 @@ impl Engine for SbEngine {
         EngineInfo {
             rule: "one run = a model server's 0..64-client info in the legacy-64 or extended multi-packet format (harness-own encoder), delivered by a simulated network in any order with duplication (before and after completeness), loss, or in-flight corruption (bit flips, truncation, numeric fields overwritten with boundary values incl. 63/64/65), plus datagrams of the other response kinds through the same corruptor. Oracles: uncorrupted traffic is complete exactly when every part was received, then equals the model; repeated parts change nothing; no merge error; under corruption only value-or-nothing and no panic. Non-trivial = a network fault (reorder/dup/loss/corruption) fired AND a result was checked; distinct = distinct trace hash.".into(),
             assumptions: vec![
-                "client names are unique within one server info (so every client is attributable)".into(),
+                "clients are compared as multisets of (name, clan, country, score, player flag); in a quarter of the runs several clients share name and clan".into(),
                 "the 'parsing any datagram' half is reached only through corruption of realistic traffic: sampling, not the boundary sweep of the quantifier".into(),
             ],
             real: vec!["serverbrowse::protocol::parse_response", "Info664Response / Info6ExResponse / Info6ExMoreResponse / Info5 / Info6 / Info7 ::parse", "PartialServerInfo::{merge, get_info}"],
